@@ -18,6 +18,7 @@ import Proofs.Placement
 import Proofs.SpecParse
 import Proofs.BuildOrder
 import Proofs.SpecDeadEndFuel
+import Proofs.RefusalCause
 import Props.C15
 namespace PM.C06
 open PM
@@ -624,6 +625,68 @@ theorem buildSchema_refusal_kind (spec : Spec) (hhead : HeadOk spec) (i : Nat) (
     exact ⟨fun hd => hstep _ ((nodeStep_error_iff spec _ _).2 (Or.inr ⟨hclash, Or.inr ⟨oe, hc, Or.inl ⟨hd, rfl⟩⟩⟩)),
       fun hnd hm => hstep _ ((nodeStep_error_iff spec _ _).2
         (Or.inr ⟨hclash, Or.inr ⟨oe, hc, Or.inr ⟨hnd, hm, rfl⟩⟩⟩))⟩
+
+/-- **what the reasons of the specification reader mean**: an expression refused for an unknown name has a word
+    that is neither a node type nor a group with members; an expression refused for mixing has two words (possibly
+    the same group name) standing for node types of which one is inline and the other is not.  (Which reason is
+    given when several apply is the left-to-right reading of `specParse`; `syntax` is every other refusal.) -/
+theorem specParse_refusal_cause (table : List NameInfo) (s : String) :
+    (specParse table s = .error .unknownName →
+      ∃ t, t ∈ tokenize s ∧ isWordTok t = true ∧ resolveIds table t = []) ∧
+    (specParse table s = .error .mixed →
+      ∃ t t', t ∈ tokenize s ∧ t' ∈ tokenize s ∧ isWordTok t = true ∧ isWordTok t' = true ∧
+        ∃ a b, a ∈ resolveIds table t ∧ b ∈ resolveIds table t' ∧ (table[a]!).isInline ≠ (table[b]!).isInline) :=
+  ⟨fun h => specParse_cause table s _ h, fun h => specParse_cause table s _ h⟩
+
+/-- **a content or dead-end refusal of `Schema(spec)` has its cause**: some node type `i` — every one before it
+    passes its round — whose content expression the parser refuses with that very error (and, counts plain numbers,
+    `specParse` refuses for the corresponding reason, with the cause of `specParse_refusal_cause`), respectively
+    whose expression the parser accepts and which has `DeadEndSpec` -/
+theorem buildSchema_refusal_cause (spec : Spec) :
+    (∀ ce, buildSchema spec = .error (.content ce) →
+      ∃ i, ∃ hi : i < spec.nodes.length, parseC (nameTable spec) spec.nodes[i].content = .error ce ∧
+        (∀ j (hj : j < i), ∃ nt, nodeStep spec (spec.nodes[j]'(Nat.lt_trans hj hi)) = .ok nt) ∧
+        (PlainNumbers spec.nodes[i].content →
+          specParse (nameTable spec) spec.nodes[i].content = .error ce.toPErr ∧
+          ErrCause (nameTable spec) (tokenize spec.nodes[i].content) ce.toPErr)) ∧
+    (buildSchema spec = .error .deadEnd →
+      ∃ i, ∃ hi : i < spec.nodes.length, ∃ oe, parseC (nameTable spec) spec.nodes[i].content = .ok oe ∧
+        DeadEndSpec (contentRE oe) (specGen spec) ∧
+        ∀ j (hj : j < i), ∃ nt, nodeStep spec (spec.nodes[j]'(Nat.lt_trans hj hi)) = .ok nt) := by
+  refine ⟨fun ce hb => ?_, fun hb => ?_⟩
+  · rcases (buildSchema_error_iff spec _).1 hb with ⟨_, h⟩ | ⟨_, _, h⟩ | ⟨_, _, h⟩ | ⟨_, i, hi, he, hbefore⟩ |
+      ⟨_, _, e, _, h⟩
+    · cases h
+    · cases h
+    · cases h
+    · refine ⟨i, hi, ?_, hbefore, ?_⟩
+      · rcases (nodeStep_error_iff spec _ _).1 he with ⟨_, h⟩ | ⟨_, ⟨ce', h1, h2⟩ | ⟨_, _, ⟨_, h⟩ | ⟨_, _, h⟩⟩⟩
+        · cases h
+        · cases h2; exact h1
+        · cases h
+        · cases h
+      · intro hp
+        have hce : parseC (nameTable spec) spec.nodes[i].content = .error ce := by
+          rcases (nodeStep_error_iff spec _ _).1 he with ⟨_, h⟩ | ⟨_, ⟨ce', h1, h2⟩ | ⟨_, _, ⟨_, h⟩ | ⟨_, _, h⟩⟩⟩
+          · cases h
+          · cases h2; exact h1
+          · cases h
+          · cases h
+        have hs : specParse (nameTable spec) spec.nodes[i].content = .error ce.toPErr := by
+          rw [specParse_eq _ _ hp, hce]; rfl
+        exact ⟨hs, specParse_cause _ _ _ hs⟩
+    · cases h
+  · rcases (buildSchema_error_iff spec _).1 hb with ⟨_, h⟩ | ⟨_, _, h⟩ | ⟨_, _, h⟩ | ⟨_, i, hi, he, hbefore⟩ |
+      ⟨_, _, e, _, h⟩
+    · cases h
+    · cases h
+    · cases h
+    · rcases (nodeStep_error_iff spec _ _).1 he with ⟨_, h⟩ | ⟨_, ⟨_, _, h⟩ | ⟨oe, h1, ⟨h2, _⟩ | ⟨_, _, h⟩⟩⟩
+      · cases h
+      · cases h
+      · exact ⟨i, hi, oe, h1, h2, hbefore⟩
+      · cases h
+    · cases h
 
 /-- **the dead-end refusal, exactly**: for a spec in which everything else is in order (the checks before the loop
     pass, no node name is a mark name, every `marks` expression names known marks, `specParse` reads every content
